@@ -189,6 +189,9 @@ func genMainCase(t *rapid.T) interface{} {
 			default:
 				b.Txs = append(b.Txs, connkit.MTx{Kind: "other"})
 			}
+			if rapid.IntRange(0, 11).Draw(t, "failed") == 0 {
+				b.Txs[len(b.Txs)-1].Failed = true // a failed Minter transaction is no bridge event
+			}
 		}
 		c.Blocks = append(c.Blocks, b)
 		c.Gaps = append(c.Gaps, rapid.SampledFrom([]int{0, 0, 0, 0, 0, 0, 1, 3, 98, 99, 100, 101, 199, 205}).Draw(t, "gap"))
